@@ -414,6 +414,11 @@ func cmdCheck(args []string) {
 	fmt.Printf("property %s tier %s: functions=%d obligations=%d discharged=%d undecided(not claimed)=%d known-findings=%d violations=%d wall=%.1fs\n", *prop, *tier, len(fnList), nObl, nDis, len(undecided), len(knownHits), len(violationLines), time.Since(t0).Seconds())
 	if broken != "" && !*writeLedger {
 		fmt.Fprintln(os.Stderr, "BROKEN:", broken)
+		if len(violationLines) > 0 {
+			// the collapse has a reported cause (units that left the supported subset, e.g. a contract naming a
+			// symbol the code no longer has): that is a violation, reported above with its VIOLATION lines
+			os.Exit(1)
+		}
 		os.Exit(2)
 	}
 	os.Exit(exit)
